@@ -595,6 +595,45 @@ func ruleStatsPure(r *Run) {
 				}
 			}
 		}
+		// closures created in a stats-only block (the deferred End): their whole body is stats-only. A store into a
+		// variable of the enclosing function that the function reads outside stats-only code (a named result, …)
+		// lets the presence of a handler decide the RPC's outcome
+		isStats := map[*ssa.BasicBlock]bool{}
+		for _, b := range blocks {
+			isStats[b] = true
+		}
+		for _, b := range blocks {
+			for _, in := range b.Instrs {
+				mc, ok := in.(*ssa.MakeClosure)
+				if !ok {
+					continue
+				}
+				body := mc.Fn.(*ssa.Function)
+				for _, bf := range allFuncsDeep(body) {
+					eachInstr(bf, func(x ssa.Instruction) {
+						st, ok := x.(*ssa.Store)
+						if !ok {
+							return
+						}
+						al, ok := p.cellRoot(st.Addr).(*ssa.Alloc)
+						if !ok || al.Parent() != fn {
+							return
+						}
+						// read by fn outside stats-only blocks?
+						readOutside := false
+						eachInstr(fn, func(y ssa.Instruction) {
+							if u, ok := y.(*ssa.UnOp); ok && u.Op == token.MUL && p.cellRoot(u.X) == ssa.Value(al) && !isStats[y.Block()] {
+								readOutside = true
+							}
+						})
+						if readOutside {
+							nbad++
+							r.bad(key+"/outcome-write:"+al.Comment, x.Pos(), "a closure that exists only when a stats handler is installed assigns %s, which %s reads outside stats-only code (its result / control flow): the RPC ends differently with and without a stats handler", al.Comment, shortFunc(fn))
+						}
+					})
+				}
+			}
+		}
 		if nbad == 0 {
 			r.ok(key, fn.Pos(), "%d stats-only blocks: no return, response write, stream-state write or unjustified slicing", len(blocks))
 		}
